@@ -13,7 +13,7 @@ class InvProp(Prop):
     serial = False
     # which parts of the observation this property compares
     parts = ("discover", "nodes", "inventory")
-    model_is_spec = False
+    model_is_spec = True
 
     def judge(self, req, impl, reply):
         if req.get("op") != "inventory":
@@ -51,7 +51,11 @@ class InvProp(Prop):
                 else:
                     for k in ni:
                         if not core.results_agree(ni[k], nm[k]):
-                            why.append("node %s differs" % k)
+                            a_, b_ = core.norm_result(ni[k], True), core.norm_result(nm[k], False)
+                            if a_[0] == "err" and b_[0] == "err":
+                                why.append("ERRCLASS node %s: implementation reports %s, model %s" % (k, a_[1], b_[1]))
+                            else:
+                                why.append("node %s differs" % k)
                             break
             if "inventory" in self.parts:
                 def srt(x):
@@ -71,7 +75,13 @@ class InvProp(Prop):
             if not core.results_agree(impl.get("unknown"), model.get("unknown")):
                 why.append("unknown-node error differs")
         agree = not why
-        return dict(agree=agree, spec_ok=None, why="; ".join(why), concrete=(not agree) and self.model_is_spec)
+        # concrete failing input unless the only difference is which of two errors is reported
+        concrete = False
+        if not agree and self.model_is_spec:
+            concrete = any(not w.startswith("ERRCLASS") for w in why)
+            if why == ["discovery differs"] and di[0] == "err" and dm[0] == "err":
+                concrete = False
+        return dict(agree=agree, spec_ok=None, why="; ".join(why), concrete=concrete)
 
     def tags(self, req, impl, reply):
         if req.get("op") != "inventory" or not isinstance(impl, dict):
